@@ -19,6 +19,7 @@ import (
 	"os"
 	"runtime"
 	"strings"
+	"syscall"
 	"time"
 
 	"github.com/flamego/flamego"
@@ -240,6 +241,11 @@ func (h *chainHandler) interpret(i int, cur **chainRun, c flamego.Context) {
 				if i%2 == 1 {
 					panicFromUnreadableSource() // same value, raised from a frame whose source file does not exist
 				}
+				if (i+a.n)%5 == 4 {
+					// a long message whose byte 1024 falls inside a multi-byte character (whatever is done with the text
+					// of a panic value, it is the panicking handler's text, of any length)
+					panic("a string value" + strings.Repeat("x", 1009) + "é and more text after it")
+				}
 				if (i+a.n)%3 == 2 {
 					// a panic raised INSIDE the framework while it is busy with the request's injector: MapTo with a pointer
 					// to a non-interface type (inject.InterfaceOf refuses it) — whatever the injector was holding at that
@@ -258,6 +264,10 @@ func (h *chainHandler) interpret(i int, cur **chainRun, c flamego.Context) {
 				if (i+a.n)%4 == 3 {
 					// an error value of a foreign library that happens to carry an HTTP status of its own
 					panic(chainStatusErr{code: 404})
+				}
+				if (i+a.n)%7 == 5 {
+					// a write error of some BACKEND connection (database, upstream API): nothing is known about the client's
+					panic(fmt.Errorf("upstream: %w", &net.OpError{Op: "write", Net: "tcp", Err: syscall.EPIPE}))
 				}
 				switch i % 3 {
 				case 1:
@@ -375,7 +385,7 @@ func classifyPanic(r interface{}) string {
 		return "-"
 	case string:
 		switch {
-		case v == "a string value":
+		case strings.HasPrefix(v, "a string value"):
 			return "str"
 		case v == "hook":
 			return "hook"
@@ -392,6 +402,9 @@ func classifyPanic(r interface{}) string {
 	case error:
 		if errors.Is(v, http.ErrAbortHandler) {
 			return "abort"
+		}
+		if errors.Is(v, syscall.EPIPE) {
+			return "err"
 		}
 		return "othererror"
 	}
@@ -480,7 +493,16 @@ func execChain(args []string, lines [][]string) []string {
 		for t := 1 + nmw; t&(t-1) == 0; t++ { // single-element appends: full exactly at the powers of two
 			useMw(func() {})
 		}
-		for _, fn := range fns[:nmw] {
+		// the session's LAST middleware may be registered from inside the (outermost) group callback: Use is
+		// application-wide wherever it is called from, and it is called here before the route is declared
+		lateUse := nmw > 0 && ngrp > 0 && (nmw+ngrp+2*nrt)%2 == 0
+		inGroup := func() {}
+		for k, fn := range fns[:nmw] {
+			if lateUse && k == nmw-1 {
+				fn := fn
+				inGroup = func() { f.Use(fn) }
+				continue
+			}
 			f.Use(fn)
 		}
 		f.Get(probe, func() { (*cur).events = append((*cur).events, "PROBE") }, func() { (*cur).events = append((*cur).events, "PROBE2") })
@@ -491,27 +513,29 @@ func execChain(args []string, lines [][]string) []string {
 			f.Route(method, "/r", rt)
 		case ngrp == 1 && (nmw+nrt)%2 == 1:
 			// a group that exists only to share handlers: no path of its own
-			f.Group("", func() { f.Route(method, "/r", rt) }, grp...)
+			f.Group("", func() { inGroup(); f.Route(method, "/r", rt) }, grp...)
 			path = "/r"
 		case ngrp == 1:
-			f.Group("/a", func() { f.Route(method, "/r", rt) }, grp...)
+			f.Group("/a", func() { inGroup(); f.Route(method, "/r", rt) }, grp...)
 			path = "/a/r"
 		case (nmw+nrt)%3 == 1: // two nested groups, the inner one without a path
 			k := (ngrp + 1) / 2
 			f.Group("/a", func() {
+				inGroup()
 				f.Group("", func() { f.Route(method, "/r", rt) }, grp[k:]...)
 			}, grp[:k]...)
 			path = "/a/r"
 		case (nmw+nrt)%3 == 2: // … the outer one without a path
 			k := (ngrp + 1) / 2
 			f.Group("", func() {
+				inGroup()
 				f.Group("/b", func() { f.Route(method, "/r", rt) }, grp[k:]...)
 			}, grp[:k]...)
 			path = "/b/r"
 		default: // two nested groups, the outer one holding the first half
 			k := (ngrp + 1) / 2
 			f.Group("/a", func() {
-				f.Group("/b", func() { f.Route(method, "/r", rt) }, grp[k:]...)
+				f.Group("/b", func() { inGroup(); f.Route(method, "/r", rt) }, grp[k:]...)
 			}, grp[:k]...)
 			path = "/a/b/r"
 		}
